@@ -151,3 +151,32 @@ M("C04", "timeout-treated-as-ok-advance", "ledger/protocol.py",
 M("C04", "heartbeat-error-swallowed", "ledger/protocol.py",
   "            heartbeat = self.hsm2dongle.get_signer_heartbeat(request[\"udValue\"])\n            # Treat any user-errors as a device (unexpected) error\n            if not heartbeat[0]:\n                return (self.ERROR_CODE_DEVICE,)",
   "            heartbeat = self.hsm2dongle.get_signer_heartbeat(request[\"udValue\"])\n            # Treat any user-errors as a device (unexpected) error\n            if not heartbeat[0]:\n                return (self.ERROR_CODE_INVALID_AUTH,)")
+
+# ---- C11
+M("C11", "comm-issue-not-set-in-state", "ledger/protocol.py",
+  "            self._comm_issue = True\n            self.logger.error(\"Dongle communication error getting blockchain state\")",
+  "            self.logger.error(\"Dongle communication error getting blockchain state\")")
+M("C11", "ensure-connection-missing-in-reset", "ledger/protocol.py",
+  "            self.ensure_connection()\n            self.hsm2dongle.reset_advance_blockchain()",
+  "            self.hsm2dongle.reset_advance_blockchain()")
+M("C11", "disconnect-skipped", "ledger/protocol.py",
+  "        self.logger.info(\"Attempting dongle reconnection\")\n        self.hsm2dongle.disconnect()",
+  "        self.logger.info(\"Attempting dongle reconnection\")")
+M("C11", "v1-report-comm-issue-dropped", "ledger/protocol_v1.py",
+  "            self.protocol_v2.report_comm_issue()\n            self.logger.error(\"Dongle communication error signing\")",
+  "            self.logger.error(\"Dongle communication error signing\")")
+M("C11", "read-error-not-comm-error", "ledger/hsm2dongle.py",
+  "            and exc.args[0] == \"read error\"",
+  "            and exc.args[0] == \"read_error\"")
+M("C11", "sign-commerror-as-unknown", "ledger/protocol.py",
+  "            except HSM2DongleCommError:\n                # Signal a communication problem and return a device error\n                self._comm_issue = True\n                self.logger.error(\"Dongle communication error signing\")\n                return (self.ERROR_CODE_DEVICE,)\n            except HSM2DongleError as e:\n                self._error(\"Dongle error in sign: %s\" % str(e))\n        else:",
+  "            except HSM2DongleCommError:\n                # Signal a communication problem and return a device error\n                self._comm_issue = True\n                self.logger.error(\"Dongle communication error signing\")\n                return (self.ERROR_CODE_UNKNOWN,)\n            except HSM2DongleError as e:\n                self._error(\"Dongle error in sign: %s\" % str(e))\n        else:")
+M("C11", "reconnect-skips-version-check", "ledger/protocol.py",
+  "        # Verify that the app's version is correct\n        self._dongle_app_version = self.hsm2dongle.get_version()\n        self._check_version(self._dongle_app_version, self.APP_VERSION, \"App\")",
+  "        # Verify that the app's version is correct\n        if not self._comm_issue:\n            self._dongle_app_version = self.hsm2dongle.get_version()\n            self._check_version(self._dongle_app_version, self.APP_VERSION, \"App\")")
+M("C11", "reconnect-error-swallowed", "ledger/protocol.py",
+  "            raise HSM2DongleCommError(\"While attempting to reconnect: %s\", str(e))",
+  "            return")
+M("C11", "timeout-flags-comm-issue-advance-exc", "ledger/protocol.py",
+  "        except HSM2DongleCommError:\n            # Signal a communication problem and return a device error\n            self._comm_issue = True\n            self.logger.error(\"Dongle communication error in update ancestor\")\n            return (self.ERROR_CODE_DEVICE,)",
+  "        except HSM2DongleCommError:\n            # Signal a communication problem and return a device error\n            self.logger.error(\"Dongle communication error in update ancestor\")\n            return (self.ERROR_CODE_DEVICE,)")
